@@ -196,3 +196,49 @@ def run_enum(driver, spec, classify):
 
 F['C18'] = dict(custom=run_enum('retry', 'RetryTV', lambda e: f'{e.get("ev")}:{e.get("ckind", "")}:{"panic" if e.get("panic") else "mismatch"}'),
                 custom_replay=lambda ctx, path: run_enum('retry', 'RetryTV', lambda e: 'x')(ctx))
+
+
+# ---------------------------------------------------------------------------------------------------------------------
+# C16 context combinators: protocol model checked (ContextMC); observations made at exactly quiescent points of real
+# executions (controlled and free-running) are checked line by line against ContextTV
+def run_context(ctx):
+    build_harness(ctx)
+    run_mc(ctx, 'ContextMC', 'ContextMC' if ctx.quick else 'ContextMC_big', workers=8, timeout=900)
+    for mode, n, seed in (('c', 150 if ctx.quick else 3000, ctx.seed), ('f', 300 if ctx.quick else 6000, ctx.seed + 1000)):
+        out, st = run_harness(ctx, 'context', 'mode' + mode, mode=mode, profile='main', seed=seed, n=n)
+        trace = f'{out}/trace.ndjson'
+        nlines, bad = tv_cases(ctx, 'ContextTV', trace, 'tv_' + mode)
+        lines = open(trace).read().splitlines()
+        nobs = sum(1 for ln in lines if '"ev":"obs"' in ln)
+        ctx.evaluations += st['executions']
+        ctx.distinct_nontrivial += st['nontrivial'] or st['distinct_schedules']
+        ctx.samples += st.get('samples', [])[:1]
+        ctx.conf.append(dict(mode='controlled' if mode == 'c' else 'free', executions=st['executions'], observations=nobs, disagreeing=len(bad),
+                             steps=st.get('steps'), distinct=st['distinct_schedules']))
+        bad_execs = set()
+        for b in bad:
+            s = b - 1
+            while s > 0 and '"ev":"reset"' not in lines[s]:
+                s -= 1
+            ex = json.loads(lines[s]).get('exec')
+            if ex in bad_execs:
+                continue
+            bad_execs.add(ex)
+            e = json.loads(lines[b - 1])
+            ei = next((x for x in st.get('exec_index', []) if x['exec'] == ex), {})
+            report(ctx, f'mode{mode.upper()}:obs:{e.get("kind")}', f'observation at exact quiescence disagrees with ContextTV: {lines[b - 1][:300]}',
+                   {'exec.json': dict(ei, mode=mode, driver='context', spec='ContextTV'), 'rejected_event.json': lines[b - 1]})
+        ctx.traces_ok += st['executions'] - len(bad_execs)
+
+
+def replay_context(ctx, path):
+    build_harness(ctx)
+    ei = json.load(open(f'{path}/exec.json'))
+    out, st = run_harness(ctx, 'context', 'replay', mode=ei.get('mode', 'c'), profile='replay', replay=f'{path}/exec.json')
+    n, bad = tv_cases(ctx, 'ContextTV', f'{out}/trace.ndjson', 'tv_replay')
+    lines = open(f'{out}/trace.ndjson').read().splitlines()
+    for b in bad[:1]:
+        report(ctx, 'replay:obs', f'observation disagrees with ContextTV: {lines[b - 1][:300]}', {'exec.json': ei})
+
+
+F['C16'] = dict(custom=run_context, custom_replay=replay_context)
